@@ -895,13 +895,11 @@ pub fn duplicates(seed: u64, tag: &str, blocks: usize, flags: &[&str]) -> Scenar
           g.values.insert(format!("{}:{i}", t.label), o.v);
         }
       }
+      // the re-created outputs are never spent afterwards: ord keeps the stale committed entry of a displaced output
+      // when its replacement is created and spent within one commit batch (recorded finding
+      // C01-duplicate-output-resurrected, scenarios-known/c01-duplicate-spent-in-batch.ndjson)
       let cbl = format!("c{x}");
       g.utxos.retain(|u| !u.label.starts_with(&format!("{cbl}:")));
-      for (i, o) in cb.iter().enumerate() {
-        if o.t != "opret" {
-          g.utxos.push(Utxo { label: format!("{cbl}:{i}"), v: o.v, t: o.t.clone(), h: g.height + 1 });
-        }
-      }
       block.cb = cb;
       block.dup = Some(x);
       g.height += 1;
